@@ -641,8 +641,12 @@ def ensemble_sift(X, nensembles=4, ensemble_noise=.2, noise_mode='single',
 
     p = mp.Pool(processes=nprocesses)
 
-    noise = None
-    args = [(X, noise_scaling, noise, noise_mode, sift_thresh, max_imfs, ii, imf_opts, envelope_opts, extrema_opts)
+    # Noise is generated here, one column per ensemble member - worker processes
+    # inherit the state of the global random number generator and would
+    # otherwise draw identical noise
+    noise = np.random.randn(X.shape[0], nensembles)
+    args = [(X, noise_scaling, noise[:, ii, None], noise_mode, sift_thresh, max_imfs, ii,
+             imf_opts, envelope_opts, extrema_opts)
             for ii in range(nensembles)]
 
     res = p.starmap(_sift_with_noise, args)
